@@ -25,6 +25,8 @@ pub mod lifo {
             System.alloc(l)
         }
         unsafe fn dealloc(&self, p: *mut u8, l: Layout) {
+            // buffered stores (weak cases) are written back before their target can go away
+            crate::sched::flush_before_free(p as usize, l.size());
             if mine(&l) {
                 if let Ok(mut f) = FREE.try_lock() {
                     if f.capacity() > f.len() {
